@@ -20,14 +20,19 @@ LEVEL_TEXT = ("a TLA+ contract of an aligned heap (an allocation answer is null,
               "whose recorded long random executions are validated by TLC")
 LEVEL_NOTE = ("bounded: model address space 1..8 (thorough 1..12), sizes 0..3 (0..4), alignments 1/2/4, 3 live blocks (plus 1..6 / 2 blocks with "
               "stale content after free); size_t model of 8 bits for the overflow guard; vectors of <= 3 elements over 2 (thorough 3) values for "
-              "the model, over 1 value + the default for exhaustive histories; real executions: sizes {0,1,7,8,63,64,65,4095,4096,4097,2^20} and "
-              "5 huge sizes x the 13 alignments 1..4096, <= 26 live blocks, seeded random; vectors up to ~150 elements of char, int, double (incl. -0.0), "
+              "the model, over 1 value + the default for exhaustive histories; real executions: sizes {0,1,7,8,63,64,65,4095,4096,4097,2^20}, 29 further "
+              "size-class / 8- / 16-bit boundaries (2..2^20+1), 2^31 and 2^32 +-1 (touched at both edges, disjointness decides) and 5 huge sizes x the "
+              "13 alignments 1..4096, through alignedMalloc, its typed overload and aligned_allocator<T>::allocate, from three threads (allocating "
+              "and freeing thread differ), bursts of 256 / 257 / 65536 (thorough 65537) simultaneously live blocks, <= 26 other live blocks, seeded random; vectors up to ~150 elements of char, int, double (incl. -0.0), "
               "12- and 64-byte structs, a self-recursive node, std::vector<Any>, a lifetime-instrumented type (quick: all on the ASan build, a "
               "subset on the other two). "
               "Back ends: TBB scalable allocator (not interposable: no sanitizer inside it, an under-allocation there is only visible as a "
               "corrupted neighbour), _mm_malloc -> glibc, _mm_malloc -> ASan allocator (ASan/UBSan/LSan observe overruns and unreleased blocks "
               "there).  Allocator internals are observed, not modelled.  'Released' is observed as: no unreachable freed block (LSan, ASan "
-              "build) and bounded resident-set growth over alloc/free cycles (plain builds).  Not covered: alignments above 4096, the typed "
+              "build) and bounded resident-set growth over alloc/free cycles (plain builds).  Vector histories include lengths 127..4097 and 65535..65537 around each boundary, aliasing arguments "
+              "(v.push_back(v[0]), insert(begin(), back()), resize(n, v[0])), self-assignment, move assignment, throwing element copies (strong "
+              "guarantee calls only), the allocate(n, hint) overload and a rebound allocator.  Not covered: alignments above 4096, move-only "
+              "element types (aligned_allocator::construct copies, they do not compile), the typed "
               "alignedMalloc<T>(n) overload for element counts whose byte size overflows, allocators rebound to another alignment.  "
               "Trusted: TLC, the driver's pattern fill / byte comparison and pointer-to-limb conversion, LSan, /proc/self/statm, g++/libstdc++")
 TECHNIQUE = ("TLA+ contract specification parameterised over address arithmetic + TLC (invariants, negative controls); TLC trace validation of "
@@ -40,19 +45,35 @@ SPEC_CON = os.path.join(VERIF, "spec", "containers")
 SIZES = [0, 1, 7, 8, 63, 64, 65, 4095, 4096, 4097, 1 << 20]
 ALIGNS = [1, 2, 4, 8, 16, 32, 64, 128, 256, 512, 1024, 2048, 4096]
 HUGE = [(1 << 64) - 1, (1 << 64) - 4096, 1 << 63, (1 << 62) + 1, 1 << 48]
+# further boundaries of size classes, counters and casts (allocator bins, page size, 16-bit), each with every alignment once
+SIZES_MORE = [2, 3, 9, 15, 16, 17, 24, 127, 128, 129, 255, 256, 257, 511, 512, 513, 1023, 1024, 1025, 8128, 8129,
+              65535, 65536, 65537, 131071, 131072, 131073, (1 << 20) - 1, (1 << 20) + 1]
+# requests around 2^31 and 2^32 bytes: the block is touched at both 4 KiB edges only; what decides is that the whole
+# requested extent is disjoint from the blocks allocated while it is held
+BIG = [(1 << 31) - 1, 1 << 31, (1 << 31) + 1, (1 << 32) - 1, 1 << 32, (1 << 32) + 1]
+BURSTS_QUICK = [(256, 64, 64), (257, 1, 1), (65536, 24, 256)]
+BURSTS_MORE = [(65537, 0, 128), (65536, 65, 128), (255, 4097, 4096), (1025, 3, 2)]
 # element types of the vector part -> which instance of AlignedVec describes them (byte: sizeof(T) = 1, no request exceeds
 # max_size(); life: the type reports its construction / destruction accounting)
-VARIANTS = {"c1": "byte", "i4": "plain", "f8": "plain", "s12": "plain", "s64": "plain", "nest": "plain", "vany": "plain", "trk": "life"}
-GEN_CFG = {"plain": "AlignedVecGen.cfg", "byte": "AlignedVecGen_byte.cfg", "life": "AlignedVecGen_life.cfg"}
+VARIANTS = {"c1": "byte", "i4": "plain", "f8": "plain", "b3": "plain", "s12": "plain", "a32": "plain", "s64": "plain", "nest": "plain",
+            "vany": "plain", "trk": "life"}
+GEN_CFG = "AlignedVecGen.cfg"       # one generation instance (wide element type, lifetime accounting); see histories_for()
 TRACE_CFG = {"plain": "AlignedVecTrace.cfg", "byte": "AlignedVecTrace_byte.cfg", "life": "AlignedVecTrace_life.cfg"}
-VEC_MUT = {"PushBack", "PushBackRv", "PushBackOwn", "PopBack", "Resize", "ResizeVal", "Assign", "AssignFrom", "CopyCtor", "Swap", "Clear",
-           "Insert", "InsertMid"}
-VEC_ACTIONS = ["PushBack", "PushBackRv", "PushBackOwn", "PopBack", "Resize", "ResizeVal", "Reserve", "ShrinkToFit", "Assign", "AssignFrom",
-               "CopyCtor", "Swap", "Clear", "Insert", "InsertMid", "Allocate"]
+VEC_MUT = {"PushBack", "PushBackRv", "PushBackOwn", "PopBack", "Resize", "ResizeVal", "ResizeValOwn", "Assign", "AssignFrom", "CopyCtor",
+           "MoveAssign", "Swap", "Clear", "Insert", "InsertMid", "InsertOwn"}
+VEC_ACTIONS = ["PushBack", "PushBackRv", "PushBackOwn", "PopBack", "Resize", "ResizeVal", "ResizeValOwn", "Reserve", "ShrinkToFit", "Assign",
+               "AssignFrom", "CopyCtor", "MoveAssign", "SelfAssign", "Swap", "Clear", "Insert", "InsertMid", "InsertOwn", "Allocate"]
+STRONG_OPS = ["PushBack", "PushBackRv", "PushBackOwn", "Reserve", "ShrinkToFit", "CopyCtor"]   # = StrongOps of AlignedVec.tla
+# vector lengths at which a reallocation crosses a boundary of the byte size (element sizes 1..64)
+LEN_BOUNDS = [127, 128, 129, 255, 256, 257, 511, 512, 513, 1023, 1024, 1025, 4095, 4096, 4097]
+LEN_BOUNDS_16 = [65535, 65536, 65537]
 
 ASAN_ENV = {"ASAN_OPTIONS": "detect_leaks=1:leak_check_at_exit=0:abort_on_error=0:exitcode=97:allocator_may_return_null=1:"
                             "detect_stack_use_after_return=0"}
 DRIVER_TIMEOUT_MS = "900000"     # watchdog of the forked children: generous, never a verdict
+# vacuity guards that depend on what the code under test did (not on the inputs): collected here and raised at the end of a
+# run in which the specification rejected nothing - a defect that makes a guard fire must be reported as the violation it is
+GUARDS = []
 
 
 # ---------------------------------------------------------------------------
@@ -72,7 +93,8 @@ def unlimbs(l):
 def size_class(size_limbs):
     """argument class of a request size for signatures (one finding = one family of sizes)"""
     s = unlimbs(size_limbs)
-    return "0" if s == 0 else "1..63" if s < 64 else "64..4097" if s <= 4097 else "2^20" if s <= (1 << 20) else "huge"
+    return ("0" if s == 0 else "1..63" if s < 64 else "64..4097" if s <= 4097 else "4098..2^20" if s <= (1 << 20) + 1
+            else "2..4GiB" if s <= (1 << 33) else "huge")
 
 
 def backends(chk):
@@ -85,11 +107,73 @@ def backends(chk):
 # ---------------------------------------------------------------------------
 # call sequences for the heap driver (inputs only; every answer is judged by HeapTrace)
 # ---------------------------------------------------------------------------
-def alloc(h, size, align, es=0):
-    a = {"h": h, "size": limbs(size), "align": align}
+def alloc(h, size, align, es=0, via=None, t=0):
+    """es: typed overload alignedMalloc<T>; via="alloc": aligned_allocator<T>::allocate (always 64-byte alignment);
+    t: 0 the driver's thread, 1 a long-lived worker thread, 2 a thread created for this call"""
+    a = {"h": h, "size": limbs(size), "align": 64 if via else align}
     if es:
         a["es"] = es
+    if via:
+        a["via"] = via
+    if t:
+        a["t"] = t
     return {"a": "Alloc", "arg": a}
+
+
+def free(h, t=0):
+    return {"a": "Free", "arg": {"h": h, "t": t} if t else {"h": h}}
+
+
+def es_for(size, rnd, also_none=True):
+    c = [e for e in (1, 3, 4, 12, 64) if size and size % e == 0]
+    return rnd.choice(c + ([0] if also_none else [])) if c else 0
+
+
+def light_execution(size, rnd):
+    """every alignment once with this size (plain, typed or through aligned_allocator, from one of three threads), half
+    of the blocks freed (by another thread) and re-allocated, all freed"""
+    acts = []
+    for k, al in enumerate(ALIGNS):
+        es = es_for(size, rnd)
+        via = "alloc" if es and al == 64 else None
+        acts.append(alloc(k + 1, size, al, es=es if (via or es != 1) else 0, via=via, t=k % 3))
+    acts.append(act("CheckAll"))
+    for k in range(0, len(ALIGNS), 2):
+        acts.append(free(k + 1, t=(k + 1) % 3))
+    acts.append(act("CheckAll"))
+    for k in range(0, len(ALIGNS), 2):
+        acts.append(alloc(k + 1, size, ALIGNS[(k + 7) % len(ALIGNS)], t=(k + 2) % 3))
+    acts.append(act("CheckAll"))
+    for k in range(len(ALIGNS)):
+        acts.append(free(k + 1, t=(k * 2) % 3))
+    acts.append(act("LeakCheck"))
+    return acts
+
+
+def big_execution(rnd, sizes):
+    """one block of about 2 / 4 GiB at a time, with small and medium blocks allocated while it is held"""
+    acts = []
+    for n, size in enumerate(sizes):
+        al = (64, 4096, 1, 16)[n % 4]
+        es = 64 if size % 64 == 0 else 4 if size % 4 == 0 else 3 if size % 3 == 0 else 1
+        via = "alloc" if n % 2 == 0 else None
+        acts.append(alloc(1, size, al, es=es if via else 0, via=via))
+        for k in range(12):
+            acts.append(alloc(2 + k, rnd.choice([64, 4097, 65536, 1 << 20]), rnd.choice(ALIGNS)))
+        acts.append(act("CheckAll"))
+        for k in range(13):
+            acts.append(free(1 + k))
+    acts.append(act("LeakCheck"))
+    return acts
+
+
+def burst_execution(bursts):
+    acts = [alloc(1, 4097, 64), alloc(2, 65, 16)]
+    for k, (n, size, al) in enumerate(bursts):
+        acts.append({"a": "Burst", "arg": {"n": n, "size": limbs(size), "align": al, "t": k % 3}})
+        acts.append(act("CheckAll"))
+    acts += [free(1), free(2), act("LeakCheck")]
+    return acts
 
 
 def act(a, **arg):
@@ -141,17 +225,18 @@ def random_execution(rnd, n, nslots=20):
         h = rnd.randint(1, nslots)
         if x < 0.46:
             if h in used and rnd.random() < 0.9:
-                free = [s for s in range(1, nslots + 1) if s not in used]
-                if free:
-                    h = rnd.choice(free)
-            size = rnd.choice(SIZES)
-            es_of = [e for e in (0, 0, 4, 12, 64) if e == 0 or (size and size % e == 0)]
-            acts.append(alloc(h, size, rnd.choice(ALIGNS), es=rnd.choice(es_of)))
+                empty = [s for s in range(1, nslots + 1) if s not in used]
+                if empty:
+                    h = rnd.choice(empty)
+            size = rnd.choice(SIZES + SIZES_MORE) if rnd.random() < 0.6 else rnd.choice(SIZES)
+            es_of = [e for e in (0, 0, 3, 4, 12, 64) if e == 0 or (size and size % e == 0)]
+            es = rnd.choice(es_of)
+            acts.append(alloc(h, size, rnd.choice(ALIGNS), es=es, via="alloc" if es and rnd.random() < 0.4 else None, t=rnd.choice([0, 0, 1, 2])))
             used.add(h)
         elif x < 0.76:
             if h not in used and used and rnd.random() < 0.9:
                 h = rnd.choice(sorted(used))
-            acts.append(act("Free", h=h))
+            acts.append(free(h, t=rnd.choice([0, 0, 1, 2])))
             used.discard(h)
         elif x < 0.92:
             if h not in used and used and rnd.random() < 0.9:
@@ -283,8 +368,12 @@ def replay_compare(chk, exe, histories, res, rc, stderr, tag, sig_prefix, meta):
 
 def heap_cls(ev):
     arg = ev.get("arg") or {}
-    if (ev.get("during") or ev.get("a")) == "Alloc" and "size" in arg:
-        return "size=%s,align=%s" % (size_class(arg["size"]), arg.get("align"))
+    a = ev.get("during") or ev.get("a")
+    if a == "Alloc" and "size" in arg:
+        how = ",aligned_allocator" if arg.get("via") else ",typed" if arg.get("es") else ""
+        return "size=%s,align=%s%s" % (size_class(arg["size"]), arg.get("align"), how)
+    if a == "Burst" and "size" in arg:
+        return "n=%s,size=%s,align=%s" % (arg.get("n"), size_class(arg["size"]), arg.get("align"))
     return ""
 
 
@@ -295,11 +384,14 @@ def vec_cls(ev):
 def heap_stats(execs):
     """coverage counters (never a verdict): non-null answers per size, address reuse after free, detector availability"""
     st = {"alloc": 0, "nonnull": 0, "null": 0, "free": 0, "check": 0, "reuse_of_freed_base": 0, "leakcheck_active": 0,
-          "nonnull_by_size": {}, "churn": 0, "crash": 0}
+          "nonnull_by_size": {}, "churn": 0, "crash": 0, "bursts": 0, "burst_answers": 0, "largest_burst": 0, "through_allocator": 0,
+          "typed_overload": 0, "freed_by_other_thread": 0, "big_nonnull": 0}
     for evs in execs:
         freed = set()
+        owner = {}
         for ev in evs:
             a, o = ev["a"], ev.get("obs") or {}
+            arg = ev.get("arg") or {}
             if a == "crash":
                 st["crash"] += 1
             elif a == "Alloc" and not o.get("skipped"):
@@ -307,6 +399,10 @@ def heap_stats(execs):
                 p = tuple(o["p"])
                 if any(p):
                     st["nonnull"] += 1
+                    owner[arg["h"]] = arg.get("t", 0)
+                    st["through_allocator"] += 1 if arg.get("via") else 0
+                    st["typed_overload"] += 1 if (arg.get("es") and not arg.get("via")) else 0
+                    st["big_nonnull"] += 1 if unlimbs(arg["size"]) >= (1 << 31) - 1 and unlimbs(arg["size"]) <= (1 << 33) else 0
                     c = str(unlimbs(ev["arg"]["size"]))
                     st["nonnull_by_size"][c] = st["nonnull_by_size"].get(c, 0) + 1
                     if p in freed:
@@ -317,6 +413,7 @@ def heap_stats(execs):
             elif a == "Free" and not o.get("skipped"):
                 st["free"] += 1
                 freed.add(tuple(o["p"]))
+                st["freed_by_other_thread"] += 1 if owner.get(arg["h"], 0) != arg.get("t", 0) else 0
             elif a == "Check" and not o.get("skipped"):
                 st["check"] += 1
             elif a == "CheckAll":
@@ -325,6 +422,10 @@ def heap_stats(execs):
                 st["leakcheck_active"] += 1
             elif a == "Churn":
                 st["churn"] += 1
+            elif a == "Burst":
+                st["bursts"] += 1
+                st["burst_answers"] += len(o.get("ps", []))
+                st["largest_burst"] = max(st["largest_burst"], len(o.get("ps", [])))
     return st
 
 
@@ -352,6 +453,8 @@ def model_checks_start(pool, quick):
          "every contract-obeying allocator: blocks pairwise disjoint, aligned, in space, intact over the full extent; steps touch only their own block"),
         ("mc", SPEC_MEM, "HeapMC", "HeapMC_why.cfg",
          "Free may leave stale content (address space 1..6, 2 live blocks): still intact; the clause names of reports agree with the contract predicates"),
+        ("mc", SPEC_MEM, "HeapMC", "HeapMC_burst.cfg",
+         "the linear burst contract (sorted answers, each block ends before the next starts) = the answers given one after the other"),
         ("neg", SPEC_MEM, "HeapMC", "HeapMC_neg_noalign.cfg", "AllAligned", "allocator that ignores the alignment argument"),
         ("neg", SPEC_MEM, "HeapMC", "HeapMC_neg_overlap.cfg", "Intact", "allocator that ignores live blocks"),
         ("neg", SPEC_MEM, "HeapMC", "HeapMC_neg_underalloc.cfg", "Intact", "allocator that reserves size-1 bytes"),
@@ -388,6 +491,9 @@ def heap_part(chk, pool, quick, rnd, exes):
     started = []
     for label, backend, san, env in backends(chk):
         executions = [grid_execution(s, rnd) for s in SIZES] + [huge_execution()]
+        executions += [light_execution(s, rnd) for s in SIZES_MORE]
+        executions += [big_execution(rnd, BIG if not quick else [BIG[1], BIG[4], BIG[5]])]
+        executions += [burst_execution(BURSTS_QUICK if quick else BURSTS_QUICK + BURSTS_MORE)]
         executions += [random_execution(rnd, 300) for _ in range(n_rand)]
         if not san:
             executions.append(churn_execution())
@@ -407,42 +513,51 @@ def heap_part(chk, pool, quick, rnd, exes):
         chk.cov["distinct_nontrivial"] += len({json.dumps(e, sort_keys=True) for e in executions})
         # vacuity guards: the contract allows null for every request, the evidence must not rest on nulls
         if not st["crash"]:
-            missing = [str(s) for s in SIZES if s and not st["nonnull_by_size"].get(str(s))]
+            missing = [str(s) for s in SIZES + SIZES_MORE if s and not st["nonnull_by_size"].get(str(s))]
             if missing:
-                raise tla.InfraError("vacuity guard: alignedMalloc[%s] never returned memory for sizes %s" % (label, missing))
+                GUARDS.append("vacuity guard: alignedMalloc[%s] never returned memory for sizes %s" % (label, missing))
             if san and not st["leakcheck_active"]:
-                raise tla.InfraError("vacuity guard: the leak detector was not active in the %s build" % label)
+                GUARDS.append("vacuity guard: the leak detector was not active in the %s build" % label)
             if not san and not st["churn"]:
-                raise tla.InfraError("vacuity guard: no Churn observation in the %s build" % label)
+                GUARDS.append("vacuity guard: no Churn observation in the %s build" % label)
+            if st["largest_burst"] < 65536 or not st["through_allocator"] or not st["typed_overload"] or not st["freed_by_other_thread"]:
+                GUARDS.append("vacuity guard: alignedMalloc[%s]: burst of 65536 / allocator route / typed overload / cross-thread free "
+                                     "not exercised: %s" % (label, {k: st[k] for k in ("largest_burst", "through_allocator", "typed_overload", "freed_by_other_thread")}))
+            if not st["big_nonnull"]:
+                chk.note("alignedMalloc[%s] answered null to every request of 2..4 GiB on this machine: the 2^31 / 2^32 boundaries are not exercised" % label)
         if label == "TBB":
             chk.add_sample({"kind": "recorded-trace-prefix", "object": "alignedMalloc[TBB]", "events": execs[5][:4]})
-    chk.require_actions(["Alloc", "Free", "Check", "CheckAll", "LeakCheck", "Churn"])
+    chk.require_actions(["Alloc", "Free", "Check", "CheckAll", "LeakCheck", "Churn", "Burst"])
     return jobs
 
 
 # ---------------------------------------------------------------------------
 # AlignedVector: spec -> code and code -> spec
 # ---------------------------------------------------------------------------
-def rand_vec_actions(rnd, n, byte_sized):
+def rand_vec_actions(rnd, n, byte_sized, fuses=False):
     acts = []
     for _ in range(n):
         x = rnd.random()
         i = rnd.randint(1, 2)
         v = rnd.randint(1, 9)
-        if x < 0.20: a = act("PushBack", i=i, x=v)
-        elif x < 0.30: a = act("PushBackRv", i=i, x=v)
-        elif x < 0.34: a = act("PushBackOwn", i=i)                   # guarded below: needs a non-empty vector
-        elif x < 0.38: a = act("PopBack", i=i)                       # guarded below: needs a non-empty vector
-        elif x < 0.47: a = act("Resize", i=i, n=rnd.choice([0, 1, 3, 8, 17, 33, 64, 90]))
-        elif x < 0.53: a = act("ResizeVal", i=i, n=rnd.choice([0, 2, 9, 31, 65]), x=v)
-        elif x < 0.60: a = act("Reserve", i=i, n=rnd.choice([0, 1, 16, 100, 257]))
-        elif x < 0.67: a = act("ShrinkToFit", i=i)
-        elif x < 0.71: a = act("Assign", i=i, n=rnd.choice([0, 1, 5, 40, 70]), x=v)
-        elif x < 0.75: a = act("AssignFrom", i=i)
-        elif x < 0.79: a = act("CopyCtor", i=i)
-        elif x < 0.84: a = {"a": "Swap", "arg": []}
-        elif x < 0.86: a = act("Clear", i=i)
-        elif x < 0.89: a = act("Insert", i=i, pos=0, x=v)             # position 0 is always legal
+        if x < 0.17: a = act("PushBack", i=i, x=v)
+        elif x < 0.26: a = act("PushBackRv", i=i, x=v)
+        elif x < 0.30: a = act("PushBackOwn", i=i)                   # guarded below: needs a non-empty vector
+        elif x < 0.33: a = act("PopBack", i=i)                       # guarded below
+        elif x < 0.36: a = act("InsertOwn", i=i)                     # guarded below
+        elif x < 0.39: a = act("ResizeValOwn", i=i, n=rnd.choice([0, 1, 6, 20, 66]))   # guarded below
+        elif x < 0.46: a = act("Resize", i=i, n=rnd.choice([0, 1, 3, 8, 17, 33, 64, 90]))
+        elif x < 0.51: a = act("ResizeVal", i=i, n=rnd.choice([0, 2, 9, 31, 65]), x=v)
+        elif x < 0.58: a = act("Reserve", i=i, n=rnd.choice([0, 1, 16, 100, 257]))
+        elif x < 0.64: a = act("ShrinkToFit", i=i)
+        elif x < 0.68: a = act("Assign", i=i, n=rnd.choice([0, 1, 5, 40, 70]), x=v)
+        elif x < 0.72: a = act("AssignFrom", i=i)
+        elif x < 0.76: a = act("CopyCtor", i=i)
+        elif x < 0.79: a = act("MoveAssign", i=i)
+        elif x < 0.81: a = act("SelfAssign", i=i)
+        elif x < 0.85: a = {"a": "Swap", "arg": []}
+        elif x < 0.87: a = act("Clear", i=i)
+        elif x < 0.90: a = act("Insert", i=i, pos=0, x=v)             # position 0 is always legal
         elif x < 0.95: a = act("InsertMid", i=i, x=v)
         else:
             rel = rnd.choice(["abs", "abs", "max", "ovf"])
@@ -451,25 +566,54 @@ def rand_vec_actions(rnd, n, byte_sized):
             else: d = rnd.choice([-1, 0] if byte_sized else [1, 2, 3])
             if rel == "ovf" and d <= 0:
                 rel = "max"
-            a = act("Allocate", rel=rel, d=d)
+            a = act("Allocate", how=rnd.choice(["plain", "hint", "rebind"]), rel=rel, d=d)
+        if fuses and a["a"] in STRONG_OPS and rnd.random() < 0.35:
+            a["arg"]["fuse"] = rnd.choice([1, 1, 2, 3, 5, 17])       # the k-th element copy inside this call throws
         acts.append(a)
-    # pop_back / v[0] on an empty vector is undefined behaviour: guard them with a PushBack on the same vector
+    # pop_back / v[0] / back() on an empty vector is undefined behaviour: guard them with a PushBack on the same vector
     out = []
     for a in acts:
-        if a["a"] in ("PopBack", "PushBackOwn"):
+        if a["a"] in ("PopBack", "PushBackOwn", "InsertOwn", "ResizeValOwn"):
             out.append(act("PushBack", i=a["arg"]["i"], x=7))
         out.append(a)
     return out
 
 
+def boundary_vec_actions(rnd, bounds, fuses=False):
+    """vectors grown to, across and back from lengths at which the byte size of a reallocation crosses a boundary"""
+    acts = []
+    for n in bounds:
+        i = rnd.randint(1, 2)
+        v = rnd.randint(1, 9)
+        acts += [act("Clear", i=i), act("ShrinkToFit", i=i),
+                 act("ResizeVal", i=i, n=n - 1, x=v),               # exactly n-1 elements in a fresh block
+                 act("PushBack", i=i, x=rnd.randint(1, 9)),         # n: reallocation with n-1 survivors
+                 act("PushBackOwn", i=i),                           # n+1, the argument aliases element 0
+                 act("ShrinkToFit", i=i),
+                 act("InsertMid", i=i, x=rnd.randint(1, 9)),
+                 act("CopyCtor", i=3 - i),
+                 act("Reserve", i=3 - i, n=2 * n + 1),
+                 act("Resize", i=i, n=n),
+                 act("Assign", i=3 - i, n=n + 1, x=rnd.randint(1, 9)),
+                 {"a": "Swap", "arg": []},
+                 act("MoveAssign", i=i)]
+        if fuses:
+            acts += [dict(act("Reserve", i=i, n=4 * n), arg={"i": i, "n": 4 * n, "fuse": n // 2 + 1}),
+                     dict(act("PushBack", i=i, x=3), arg={"i": i, "x": 3, "fuse": 1})]
+    return acts
+
+
 def vec_stats(execs):
-    st = {"steps": 0, "storage_moved": 0, "max_len": 0, "allocate_len_err": 0, "allocate_ok": 0, "allocate_bad_alloc": 0}
+    st = {"steps": 0, "storage_moved": 0, "max_len": 0, "allocate_len_err": 0, "allocate_ok": 0, "allocate_bad_alloc": 0, "copy_threw": 0,
+          "fuse_armed": 0}
     for evs in execs:
         for ev in evs:
             o = ev.get("obs") or {}
             st["steps"] += 1
             st["storage_moved"] += sum(1 for m in o.get("moved", []) if m)
             st["max_len"] = max([st["max_len"]] + list(o.get("sizes", [])))
+            st["copy_threw"] += 1 if o.get("ret") == "threw" else 0
+            st["fuse_armed"] += 1 if isinstance(ev.get("arg"), dict) and ev["arg"].get("fuse") else 0
             if ev["a"] == "Allocate":
                 r = o.get("ret")
                 if r == "length_error": st["allocate_len_err"] += 1
@@ -480,20 +624,31 @@ def vec_stats(execs):
 
 def vec_gen_start(chk, pool, quick):
     budget = 6000 if quick else 60000
-    gf = {}
-    for k, (kind, cfg) in enumerate(sorted(GEN_CFG.items())):
-        gf[kind] = pool.submit(adtcheck.gen_histories, chk, SPEC_CON, "AlignedVec", cfg, budget, 6, walks=600 if quick else 6000, walk_len=40,
-                               seed=chk.seed + k, mutators=VEC_MUT, tag="c14-vec-" + cfg[:-4])
-    return gf
+    return pool.submit(adtcheck.gen_histories, chk, SPEC_CON, "AlignedVec", GEN_CFG, budget, 6, walks=600 if quick else 6000, walk_len=40,
+                       seed=chk.seed, mutators=VEC_MUT, tag="c14-vec-gen")
+
+
+def histories_for(hs, kind):
+    """regrouping of the histories TLC generated for the widest instance: an element type of size 1 gets the histories all of
+    whose steps the specification marked byte_ok; a type that cannot report the lifetime accounting is compared on the
+    expected observables without the `life` record"""
+    if kind == "life":
+        return hs
+    out = []
+    for h in hs:
+        if kind == "byte" and not all(st.get("byte_ok", True) for st in h):
+            continue
+        out.append([dict(st, exp={k: v for k, v in st["exp"].items() if k != "life"}) for st in h])
+    return out
 
 
 def vec_part(chk, pool, quick, rnd, exes, gf):
-    gens = {}
-    for kind in sorted(GEN_CFG):
-        hs, info, ag = gf[kind].result()
-        gens[kind] = hs
-        chk.cov["generation_AlignedVec_" + kind] = info
-        chk.count_actions(hs)
+    hs, info, ag = gf.result()
+    chk.cov["generation_AlignedVec"] = info
+    chk.count_actions(hs)
+    gens = {kind: histories_for(hs, kind) for kind in ("plain", "byte", "life")}
+    if not (0 < len(gens["byte"]) < len(gens["plain"])):
+        raise tla.InfraError("vacuity guard: byte_ok did not select a proper, non-empty subset of the histories")
     chk.require_actions(VEC_ACTIONS)
     chk.add_sample({"kind": "history", "object": "AlignedVector", "steps": gens["life"][len(gens["life"]) // 2]})
     nexec = 6 if quick else 40
@@ -501,7 +656,7 @@ def vec_part(chk, pool, quick, rnd, exes, gf):
     if quick:
         # what an element type adds is independent of the back end, what a back end adds is the alignment of its blocks:
         # every type on the instrumented build, the non-trivial ones and two sizes on TBB, two sizes on plain _mm_malloc
-        keep = {"Internal+asan": set(VARIANTS), "TBB": {"c1", "s64", "nest", "trk"}, "Internal": {"c1", "s12"}}
+        keep = {"Internal+asan": set(VARIANTS), "TBB": {"c1", "a32", "nest", "trk"}, "Internal": {"b3", "s64"}}
         combos = [c for c in combos if c[1] in keep[c[0]]]
     envs = {lab: env for lab, _, _, env in backends(chk)}
     moved_total = 0
@@ -518,7 +673,11 @@ def vec_part(chk, pool, quick, rnd, exes, gf):
 
     started = []
     for lab, var in combos:
-        executions = [rand_vec_actions(rnd, 250, VARIANTS[var] == "byte") for _ in range(nexec)]
+        life = VARIANTS[var] == "life"
+        executions = [rand_vec_actions(rnd, 250, VARIANTS[var] == "byte", fuses=life) for _ in range(nexec)]
+        executions.append(boundary_vec_actions(rnd, LEN_BOUNDS if not quick else rnd.sample(LEN_BOUNDS[:12], 4) + [rnd.choice(LEN_BOUNDS[12:])], fuses=life))
+        if var in ("c1", "i4") and lab == "Internal+asan" or (not quick and var in ("c1", "i4", "trk")):
+            executions.append(boundary_vec_actions(rnd, LEN_BOUNDS_16 if not quick else [rnd.choice(LEN_BOUNDS_16)], fuses=life))
         started.append((lab, var, executions, pool.submit(drive, lab, var, executions)))
     for lab, var, executions, fut in started:
         byte_sized = VARIANTS[var] == "byte"
@@ -540,8 +699,13 @@ def vec_part(chk, pool, quick, rnd, exes, gf):
         beyond = sum(1 for e in executions for a in e if a["a"] == "Allocate" and a["arg"]["rel"] in ("max", "ovf") and a["arg"]["d"] > 0)
         if not byte_sized and not beyond:
             raise tla.InfraError("vacuity guard: no allocate() request beyond max_size() in the random executions for %s" % prefix)
+        crashed = any(ev["a"] == "crash" for evs in execs for ev in evs)
+        if VARIANTS[var] == "life" and not crashed and not st["copy_threw"]:
+            GUARDS.append("vacuity guard: no element copy threw in the recorded executions of %s (%d fuses armed)" % (prefix, st["fuse_armed"]))
+        if not crashed and st["max_len"] < 4095:
+            GUARDS.append("vacuity guard: the vectors of %s never reached 4095 elements" % prefix)
     if not chk.violations and moved_total < 100:
-        raise tla.InfraError("vacuity guard: storage moved only %d times in the recorded vector executions" % moved_total)
+        GUARDS.append("vacuity guard: storage moved only %d times in the recorded vector executions" % moved_total)
     return jobs
 
 
@@ -558,6 +722,7 @@ def run(chk, replay=None):
     ]
     if replay:
         return do_replay(chk, replay)
+    del GUARDS[:]
     # TLC runs and builds are external processes: they are started from worker threads and joined in a fixed order
     with ThreadPoolExecutor(max_workers=10) as pool:
         bf = {lab: pool.submit(build.build, "drv_heap", backend=be, san=san) for lab, be, san, _ in backends(chk)}
@@ -569,6 +734,8 @@ def run(chk, replay=None):
         model_checks_finish(chk, mc)
         for j in jobs:
             validate_finish(chk, j)
+    if GUARDS and not chk.violations and not chk.known_hits:
+        raise tla.InfraError("; ".join(GUARDS))
     chk.cov["rule"] = ("heap: evaluations = recorded executions of the real allocator validated by HeapTrace (per size: all 13 alignments twice, "
                        "partial free, re-allocation; huge sizes; seeded random 300-call executions with <= 20 live blocks; alloc/free churn), per back end; "
                        "vector: histories = paths of TLC's complete state graph (all paths up to the budgeted length, one shortest path per transition, "
